@@ -84,6 +84,20 @@ CHECKS = {
             'parse, from_numbers, from_dict, from_json, clone and chains of two of them is aligned node by node with its '
             'specification.',
             BASE_NOTE),
+    'C13': ('E2-enum', 'model_checking',
+            'bounded-exhaustive enumeration of templates (grammar x host container) x valid DNAs against an independent reference decode; evolvable chains over all choice sequences',
+            'Every template built from the DNASpec grammar inside a dict, a list and an object, every valid DNA: no '
+            'placeholder left, equals the reference decode, encode inverts decode, repeatable, materialize agrees, template '
+            'snapshot unchanged even after writes to the decoded value, pg.iter yields space_size distinct values; typed '
+            'fields, where-filters, and all two-step mutation chains of an evolvable placeholder.',
+            BASE_NOTE),
+    'C14': ('E3-choice', 'model_checking',
+            'stateless DFS over choice sequences of the random source for every operator x specification x parents; enumeration of operator expressions',
+            'Every shipped mutator / recombinator parameterisation x 9 specifications x parents x every choice sequence '
+            '(cap reported): children validate, satisfy an independent constraint checker and are aligned node by node; '
+            'inputs and input list untouched; selectors return members in the documented number; seeded operators are '
+            'independent of the global random state (including last-resort merge paths); composed expressions inherit the checks.',
+            BASE_NOTE),
     'C02': ('E1-statespace', 'model_checking',
             'explicit-state BFS to closure over the real pg.List/pg.Dict with a lock-step plain list/dict reference model',
             'Every (reachable content, operation) pair over the list/dict API menu with all indices/slices/steps within '
